@@ -15,13 +15,18 @@ Import ListNotations.
 Open Scope N_scope.
 
 (* CborIndefiniteLenArrayEncoder.Encode *)
-Definition indef_encode (l : list N) : list N := [159] ++ concat (map cbor_uint l) ++ [255].
+Definition indef_encode (l : list N) : list N := [cbor_indef_start] ++ concat (map cbor_uint l) ++ [cbor_indef_end].
 
 (* one element: cbor2.loads of a slice that starts with an unsigned-integer head.  Heads the encoder never
    produces (negative integers, strings, simple values, ...) are refused here; the library hands them to
    cbor2 and may accept some of them -- only reachable with the wallet's own path key. *)
-Definition indef_elem_len (x : N) : nat :=
-  if x =? 24 then 2 else if x =? 25 then 3 else if x =? 26 then 5 else if x =? 27 then 9 else 1.
+(* UINT_IDS_TO_BYTE_LEN.get(x, 1) *)
+Fixpoint lookup_len (x : N) (tab : list (N * nat)) : nat :=
+  match tab with
+  | [] => 1%nat
+  | (k, v) :: t => if x =? k then v else lookup_len x t
+  end.
+Definition indef_elem_len (x : N) : nat := lookup_len x cbor_uint_id_lens.
 Definition indef_elem (s : list N) : res N :=
   match s with
   | [] => Err ValueError
@@ -38,7 +43,7 @@ Fixpoint indef_elems (fuel : nat) (b : list N) : res (list N) :=
     match b with
     | [] => Err ValueError                                  (* index overflow *)
     | x :: _ =>
-      if x =? 255 then Ok []
+      if x =? cbor_indef_end then Ok []
       else
         let n := indef_elem_len x in
         e <- indef_elem (firstn n b) ;;
@@ -48,9 +53,9 @@ Fixpoint indef_elems (fuel : nat) (b : list N) : res (list N) :=
   end.
 (* CborIndefiniteLenArrayDecoder.Decode *)
 Definition indef_decode (b : list N) : res (list N) :=
-  guard (3 <=? length b)%nat else ValueError ;;
-  guard (hd 0 b =? 159) else ValueError ;;
-  guard (last b 0 =? 255) else ValueError ;;
+  guard (cbor_indef_min_len <=? length b)%nat else ValueError ;;
+  guard (hd 0 b =? cbor_indef_start) else ValueError ;;
+  guard (last b 0 =? cbor_indef_end) else ValueError ;;
   indef_elems (length b) (tl b).
 
 Section Byron.
